@@ -36,6 +36,9 @@ pub struct ProofContext<'a> {
     pub config: ProofConfig,
     /// HNSW index metadata: index_name -> info
     pub index_info: HashMap<String, IndexProofInfo>,
+    /// Tuples at which the cycle guard of `build_node` cut a search because they were
+    /// being proved further up - kept for as long as they still are.
+    pub(crate) cycle_cuts: std::cell::RefCell<Vec<(String, Vec<Value>)>>,
 }
 
 impl<'a> ProofContext<'a> {
@@ -54,6 +57,7 @@ impl<'a> ProofContext<'a> {
             derived_relations,
             config,
             index_info: HashMap::new(),
+            cycle_cuts: std::cell::RefCell::new(Vec::new()),
         }
     }
 
@@ -73,6 +77,7 @@ impl<'a> ProofContext<'a> {
             derived_relations,
             config,
             index_info,
+            cycle_cuts: std::cell::RefCell::new(Vec::new()),
         }
     }
 
@@ -182,9 +187,11 @@ pub(crate) fn build_node(
     // Cycle detection
     let key = (relation.to_string(), values.clone());
     if visited.contains(&key) {
+        ctx.cycle_cuts.borrow_mut().push(key);
         return Ok(vec![]); // Cycle - skip to avoid infinite loop
     }
     visited.insert(key.clone());
+    let cuts_before = ctx.cycle_cuts.borrow().len();
 
     let mut result_ids = Vec::new();
 
@@ -311,9 +318,27 @@ pub(crate) fn build_node(
         }
     }
 
+    // Was the search below this tuple cut at a tuple that is being proved further up?
+    // Then a derivation that was not found here may exist in another context (where
+    // that tuple is not being proved). Cuts at this tuple itself or below it only prune
+    // circular derivations and are forgotten.
+    let cut_further_up = {
+        let mut cuts = ctx.cycle_cuts.borrow_mut();
+        let from = cuts_before.min(cuts.len());
+        let mut kept: Vec<_> = cuts
+            .drain(from..)
+            .filter(|k| *k != key && visited.contains(k))
+            .collect();
+        kept.dedup();
+        cuts.extend(kept);
+        cuts.len() > from
+    };
+
     // Fallback: if no rule proof found but tuple exists in derived_data,
-    // record it as a fact (the engine materialized it but we can't trace further)
-    if result_ids.is_empty() && in_derived {
+    // record it as a fact (the engine materialized it but we can't trace further).
+    // Not when the failure depends on the context: the fact node would be reused for
+    // this tuple wherever it is needed, and the caller has other matches to try.
+    if result_ids.is_empty() && in_derived && !cut_further_up {
         let id = builder.insert(ProofNode {
             kind: NodeKind::Fact,
             conclusion: Conclusion {
